@@ -767,10 +767,10 @@ func Encode(rv reflect.Value, o EncOpts, feats map[string]bool) *ENode {
 			return n
 		}
 		keys := rv.MapKeys()
-		sort.Slice(keys, func(i, j int) bool { return keys[i].String() < keys[j].String() })
+		sort.Slice(keys, func(i, j int) bool { return keyText(keys[i]) < keyText(keys[j]) })
 		for _, k := range keys {
 			e := Encode(rv.MapIndex(k), o, feats)
-			n.Keys = append(n.Keys, k.String())
+			n.Keys = append(n.Keys, keyText(k))
 			n.Elems = append(n.Elems, e)
 			r, z := memberRule(rv.MapIndex(k), e, o, false, true)
 			n.Rules = append(n.Rules, r)
@@ -996,4 +996,15 @@ func mayBecomeEmpty(e *ENode) bool {
 		}
 	}
 	return true
+}
+
+// keyText: a map key of an integer type is written as its digits (as encoding/json does).
+func keyText(k reflect.Value) string {
+	switch k.Kind() {
+	case reflect.Int, reflect.Int8, reflect.Int16, reflect.Int32, reflect.Int64:
+		return strconv.FormatInt(k.Int(), 10)
+	case reflect.Uint, reflect.Uint8, reflect.Uint16, reflect.Uint32, reflect.Uint64:
+		return strconv.FormatUint(k.Uint(), 10)
+	}
+	return k.String()
 }
